@@ -94,7 +94,8 @@ def expand(acc, item, tier, seed):
 
 def roots_for(ctx, many=False):
     if many:
-        keys = [("INT", "many", 2, "cm", False)] if ctx.quick else [("INT", "many", 2, "cm", True), ("SSTRING", "many", 2, "cm", False)]
+        keys = [("INT", "many", 2, "cm", False), ("INT", "latin", 2, "rr", False)] if ctx.quick else \
+            [("INT", "many", 2, "cm", True), ("SSTRING", "many", 2, "cm", False), ("DINT", "latin", 2, "cm", True), ("INT", "latin", 2, "rr", False)]
     elif ctx.quick:
         keys = [(t, "small", 2, "cm", False) for t in ("USINT", "REAL", "LINT", "SSTRING", "BOOL")]
         keys += [("INT", "std", 2, "cm", False), ("DINT", "small", 2, "rr", True)]
